@@ -301,6 +301,20 @@ func c19AppendBytes(c *core.Ctx, l int, rng *core.Rand) {
 	}
 	c.Class("bytes_roundtrip_ok")
 	c.Distinctf("AppendVarintBytes:class%d", refVarintLen(uint64(l)))
+	if l == 256 || l == 257 {
+		// not representable with a one-byte length: refusing (panic) is fine, returning something that does not round-trip is not
+		var o8 []byte
+		pan, _, _ := core.Guard(func() { o8 = quicwire.AppendUint8Bytes(arena, v) })
+		c.Eval(1)
+		if !pan {
+			b, n := quicwire.ConsumeUint8Bytes(o8[len(pfx):])
+			if n != len(o8)-len(pfx) || !bytes.Equal(b, vs) {
+				c.Violationf("Uint8Bytes:roundtrip-too-long", map[string]any{"len": l}, "AppendUint8Bytes accepted a %d-byte string and the result does not decode back to it", l)
+			}
+		} else {
+			c.Class("uint8_bytes_too_long_refused")
+		}
+	}
 	if l <= 255 {
 		var o8 []byte
 		pan, pv, _ := core.Guard(func() { o8 = quicwire.AppendUint8Bytes(arena, v) })
